@@ -1111,13 +1111,19 @@ pub fn replay_schedule(c: &Value) -> Result<Option<String>, String> {
 // ---------------------------------------------------------------------------------------------
 // C19 part 2: open-loop flood lasso
 
-/// One adversarial execution: one worker, after the flag is stored the environment refills the
-/// socket with `batch_size` datagrams before every release of the worker while it is inside the
-/// receive loop. Returns (flag_check reached, rounds, steps).
+/// One adversarial execution: one worker; once the worker is inside the receive loop the signal is
+/// delivered, and from then on the environment refills the socket with `batch_size` datagrams of
+/// the given kind before EVERY release of the worker while it is inside process_events (at the
+/// recv / collected / response / sent points). The worker must reach `flag_check` within a number
+/// of steps that a bounded drain allows. Returns (flag_check reached, refill rounds, steps).
 pub fn flood_lasso_once(batch_size: u8, max_rounds: usize) -> Result<(bool, usize, usize), String> {
+    flood_lasso_kind(batch_size, max_rounds, "valid")
+}
+
+pub fn flood_lasso_kind(batch_size: u8, max_rounds: usize, kind: &str) -> Result<(bool, usize, usize), String> {
     let mut slot = Slot::new(8);
     calibrate(&mut slot, 1, batch_size)?;
-    let scn = Scenario { name: format!("flood-bs{}", batch_size), workers: 1, health: false, stats: false, batch_size, env: vec![], idle_iteration: false, horizon: 10_000, expect: Expect::CleanExit, probe_at_end: false };
+    let scn = Scenario { name: format!("flood-bs{}-{}", batch_size, kind), workers: 1, health: false, stats: false, batch_size, env: vec![], idle_iteration: false, horizon: 100_000, expect: Expect::CleanExit, probe_at_end: false };
     let id = EXEC_ID.fetch_add(1, Relaxed);
     let mut c = Ctl::start(&scn, &slot, id)?;
     c.wait_for("main", &|c: &Ctl| c.settled("main"))?;
@@ -1134,33 +1140,39 @@ pub fn flood_lasso_once(batch_size: u8, max_rounds: usize) -> Result<(bool, usiz
     let mut refill = |k: usize| {
         for _ in 0..k {
             ctr += 1;
-            let req = rtref::responder::std_request(Version::Classic, &crate::inproc::nonce(0xf100d + ctr, 64));
-            let _ = slot.clients[(ctr % 8) as usize].sock.send_to(&req, addr);
+            let valid = rtref::responder::std_request(Version::Classic, &crate::inproc::nonce(0xf100d + ctr, 64));
+            // rejected: a well-formed IETF request naming another server (wrong SRV)
+            let rejected = rtref::responder::ietf_request(&rtref::proto::VER_IETF13, Some(&[0x5a; 32]), &crate::inproc::nonce(0xbad + ctr, 32), 1024);
+            let d = match kind {
+                "valid" => valid,
+                "rejected" => rejected,
+                _ => if ctr % 2 == 0 { valid } else { rejected },
+            };
+            let _ = slot.clients[(ctr % 8) as usize].sock.send_to(&d, addr);
         }
     };
     // fill more than one batch so that the first collect does not drain the socket
     refill(batch_size as usize * 2);
     c.wake[0] = true;
     c.release(&w0)?; // loop_top -> polled
-    c.release(&w0)?; // polled -> collected(0)
-    let mut steps = 2;
-    // now inside the receive loop: deliver the signal
+    let mut steps = 1;
+    // now inside process_events: deliver the signal
     c.proc_.signal(libc::SIGINT);
     c.wait_for("flag stored", &|c: &Ctl| c.flag_stored)?;
     let mut rounds = 0;
     let mut reached = false;
-    while rounds < max_rounds {
+    // a bounded drain needs at most max_rounds batches of (batch_size recv + batch_size response + 2) steps
+    let max_steps = max_rounds * (2 * batch_size as usize + 3) + 10;
+    while steps < max_steps {
         match c.parked_at(&w0).map(|p| p.0.clone()) {
             Some(k) if k == "flag_check" => {
                 reached = true;
                 break;
             }
             Some(k) => {
-                if k == "sent" || k == "collected" {
-                    refill(batch_size as usize);
-                    if k == "sent" {
-                        rounds += 1;
-                    }
+                refill(batch_size as usize);
+                if k == "sent" {
+                    rounds += 1;
                 }
                 c.release(&w0)?;
                 steps += 1;
@@ -1181,15 +1193,19 @@ pub fn flood_lasso(ctx: &Ctx) -> Result<Value, String> {
     let mut rounds_total = 0u64;
     let mut steps_total = 0u64;
     let rounds = ctx.tier.pick(30usize, 200);
+    let mut execs = 0u64;
     for bs in [1u8, 2] {
-        let (reached, r, steps) = flood_lasso_once(bs, rounds)?;
-        rounds_total += r as u64;
-        steps_total += steps as u64;
-        out.push(json!({"batch_size": bs, "flag_check_reached": reached, "refill_rounds": r, "steps": steps}));
-        if !reached {
-            ctx.violation("flood-starves-flag-check", "receive-loop", "open-loop-flood", json!({"kind":"lasso","batch_size":bs,"refill_rounds":r,
-                "message":"with the receive queue refilled at every batch boundary the worker stays inside process_events' receive loop: the abstract state (flag stored, worker at `sent`, queue non-empty) recurs without a flag_check in between"}));
+        for kind in ["valid", "rejected", "mixed"] {
+            let (reached, r, steps) = flood_lasso_kind(bs, rounds, kind)?;
+            execs += 1;
+            rounds_total += r as u64;
+            steps_total += steps as u64;
+            out.push(json!({"batch_size": bs, "datagrams": kind, "flag_check_reached": reached, "refill_rounds": r, "steps": steps}));
+            if !reached {
+                ctx.violation("flood-starves-flag-check", "receive-loop", &format!("open-loop-flood/{}", kind), json!({"kind":"lasso","batch_size":bs,"datagrams":kind,"refill_rounds":r,"steps":steps,
+                    "message":"with the receive queue refilled before every step of the worker inside process_events the worker does not reach the shutdown-flag check within the step bound of a bounded drain: the abstract state (flag stored, worker inside the receive loop, queue non-empty) recurs without a flag_check in between"}));
+            }
         }
     }
-    Ok(json!({"runs": out, "executions": 2, "rounds": rounds_total, "steps": steps_total}))
+    Ok(json!({"runs": out, "executions": execs, "rounds": rounds_total, "steps": steps_total}))
 }
